@@ -8,7 +8,7 @@ assert os.path.realpath(repo) != "/repo"
 root = os.path.dirname(os.path.dirname(os.path.abspath(__file__)))
 env = dict(os.environ, VERIF_REPO=repo)
 res = {}
-for d in sorted(glob.glob(os.path.join(root, "seeded", "*"))):
+for d in sorted(x for x in glob.glob(os.path.join(root, "seeded", "*")) if os.path.isdir(x)):
     name = os.path.basename(d)
     if names and name not in names:
         continue
